@@ -1,7 +1,7 @@
 """Property id -> check function."""
 import json
 from common import *
-import checks_txn, checks_cache, txnfam, findings
+import checks_txn, checks_cache, checks_pure, txnfam, findings
 
 
 def replay_txn(prop, path):
@@ -39,3 +39,10 @@ def replay_generic(prop, path):
 GENERIC_CONFIRM = {"C05": checks_cache.confirm_fn}
 CHECKS["C05"] = checks_cache.run_check
 REPLAY["C05"] = replay_generic
+
+GENERIC_CONFIRM["C10"] = checks_pure.diff_confirm
+GENERIC_CONFIRM["C11"] = checks_pure.merge_confirm
+CHECKS["C10"] = checks_pure.run_c10
+CHECKS["C11"] = checks_pure.run_c11
+REPLAY["C10"] = replay_generic
+REPLAY["C11"] = replay_generic
